@@ -17,6 +17,9 @@ def field_index(prog, adt_key, name):
 
 
 def analyse_session(env, rep, which):
+    """replay handle_input path by path up to the message loop (helpers followed in place) and ask the state at that point"""
+    from .. import grammar
+    from . import facts
     prog, ctx = env.prog, env.ctx
     ty = "sessions::%s::%sSession" % (which, which.capitalize())
     hb = body_by_pretty(prog, ty + "::handle_input")
@@ -24,123 +27,101 @@ def analyse_session(env, rep, which):
         rep.anchor_missing("C17.R1", ty + "::handle_input")
         return None
     rep.fn(hb.key)
-    adt_key = [k for k, a in prog.adts.items() if a["pretty"] == ty][0]
-    ci, wi = field_index(prog, adt_key, COUNTER), field_index(prog, adt_key, WINDOW)
-    if ci is None or wi is None:
+    if facts.field_proj(prog, ty, [COUNTER]) is None or facts.field_proj(prog, ty, [WINDOW]) is None:
         rep.anchor_missing("C17.R1", "%s fields %s / %s" % (ty, COUNTER, WINDOW))
         return None
-    it = ctx.interp(hb.key)
-    I.CUR_BODY[0] = hb
-    # the Acknowledgement aggregate
-    sites = []
-    for bi in hb.rpo:
-        for si, st in enumerate(hb.blocks[bi]["stmts"]):
-            rv = st["rv"]
-            if rv["k"] == "agg" and rv.get("ak") == "adt" and rv.get("variant") == "Acknowledgement" and rv["adt"].endswith("RtmpMessage"):
-                sites.append((bi, si, st))
-    if len(sites) != 1:
-        rep.bad("C17.R1", "%s|ack-site" % which, "expected exactly one construction of RtmpMessage::Acknowledgement in %s::handle_input, found %d" % (ty, len(sites)), hb.span)
+    # the parameter holding the received bytes: the &[u8] one
+    bi_param = None
+    for i in range(1, hb.arg_count + 1):
+        t = hb.locals[i]["t"]
+        if t.get("k") == "ref" and t["to"].get("s") == "[u8]":
+            bi_param = i
+    if bi_param is None:
+        rep.anchor_missing("C17.R1", ty + "::handle_input(&[u8])")
         return None
-    bi, si, st = sites[0]
-    S0 = it.entry_states.get(bi)
-    S = S0.copy()
-    for j, s2 in enumerate(hb.blocks[bi]["stmts"][:si]):
-        it.cur = (bi, j)
-        it.transfer_stmt(S, s2)
-    it.cur = (bi, si)
-    seq = it.eval_op(S, st["rv"]["ops"][0])
-    selfv = S.read((it.L(1), ()))
-    sloc = it.target(selfv)
-    cloc = (sloc[0], sloc[1] + (("f", ci, COUNTER),))
-    wloc = (sloc[0], sloc[1] + (("f", wi, WINDOW),))
-    cur_counter = S.read(cloc)
-    W = S.read((wloc[0], wloc[1] + (("dc", 1, "Some"), ("f", 0, "0"))))
-    set_ty(W, "u32")
-    old = ("ld", cloc, "entry")
-    res = {"which": which}
-    # ---- R2 the reported number is the updated counter = old counter + size of this call
-    base = strip_casts(cur_counter)
-    shape_ok = isinstance(base, tuple) and base[0] == "bin" and base[1] == "Add" and base[3] == old and \
-        contains(base[4], lambda x: x[0] == "ld" and x[1][1] and x[1][1][-1] == ("len",) and x[1][0][0] == "P" and is_param_load(x[1][0][1], 2))
-    rep.check("C17.R2", "%s|reported-value" % which, seq == cur_counter and shape_ok,
-              "the acknowledgement reports the counter after adding this call's byte count (%s)" % stable(seq),
-              "the acknowledgement reports %s, but the counter after this call is %s (expected: bytes received since the last acknowledgement, including this call)" % (stable(seq), stable(cur_counter)), st["span"])
-    res["reported"] = seq == cur_counter and shape_ok
-    # ---- R1 trigger: ack iff counter' >= W
-    sw = None
-    b = bi
-    guard_target = None
-    while True:
-        nb = hb.idom.get(b)
-        if nb is None or nb == b:
-            break
-        t = hb.blocks[nb]["term"]
-        if t["k"] == "switch":
-            Sx = it.exit_state(nb)
-            it.cur = (nb, 0)
-            dv = it.eval_op(Sx, t["discr"]) if Sx is not None else None
-            if dv is not None and contains(dv, lambda x: x == cur_counter or x == strip_casts(cur_counter)):
-                sw = nb
-                break
-        b = nb
-    if sw is None:
-        rep.bad("C17.R1", "%s|trigger" % which, "the acknowledgement is not guarded by a comparison of the updated counter with the peer's window", st["span"])
-        res["trigger"] = False
-    else:
-        ack_succ = [s for s in hb.succs[sw] if hb.dominates(s, bi)]
-        other = [s for s in hb.succs[sw] if s not in ack_succ]
-        ok_ack = all(it.edge_out.get((sw, s)) is not None and it.edge_out[(sw, s)].prove_le(W, cur_counter, 0) for s in ack_succ) and bool(ack_succ)
-        ok_no = all(it.edge_out.get((sw, s)) is not None and it.edge_out[(sw, s)].prove_le(cur_counter, W, -1) for s in other) and bool(other)
-        rep.check("C17.R1", "%s|trigger" % which, ok_ack and ok_no,
-                  "an acknowledgement is sent exactly when counter >= window (and not when counter < window)",
-                  "the acknowledgement trigger is not 'counter >= peer window': on the sending branch counter >= window is %s, on the other branch counter < window is %s "
-                  "(with '>' a call that makes the count land exactly on the window sends nothing)" % ("proved" if ok_ack else "NOT proved", "proved" if ok_no else "NOT proved"), hb.blocks[sw]["term"]["span"])
-        res["trigger"] = ok_ack and ok_no
-        # ---- R3 reset on the ack path, counter' kept on the other
-        # the join = first block reachable from both sides: use the successor states at the block after the if
-        reset_ok = False
-        for b2 in hb.rpo:
-            if hb.dominates(ack_succ[0], b2) if ack_succ else False:
-                for s2 in hb.blocks[b2]["stmts"]:
-                    pl = Place(s2["place"])
-                    if pl.proj and isinstance(pl.proj[-1], dict) and pl.proj[-1].get("n") == COUNTER and s2["rv"]["k"] == "use" and const_int(s2["rv"]["a"].get("k")) == 0:
-                        # every path from the ack branch to the function's continuation passes this store?
-                        reset_ok = reset_ok or all(hb.dominates(b2, p) or not hb.dominates(ack_succ[0], p) or True for p in [b2])
-                        reset_block = b2
-        # at the edge(s) from the acknowledgement branch into the join with the other branch the counter is 0
-        # (error returns of the branch are exempt: the session is dead after an error)
-        leaving = []
-        if ack_succ:
-            region = {x for x in hb.rpo if hb.dominates(ack_succ[0], x)}
+    ack_vi = facts.variant_index(prog, "messages::RtmpMessage", "Acknowledgement")
 
-            def fwd(start):
-                seen, stack = set(), list(start)
-                while stack:
-                    x = stack.pop()
-                    if x in seen:
-                        continue
-                    seen.add(x)
-                    stack.extend(hb.succs[x])
-                return seen
-            from_other = fwd(other)
-            cands = [x for x in hb.rpo if x not in region and x in from_other and any(p in region for p in hb.preds[x])]
-            if cands:
-                J = cands[0]
-                leaving = [(p, J) for p in hb.preds[J] if p in region]
-        zero_ok = bool(leaving) and all(it.edge_out.get(e) is not None and const_val(it.edge_out[e].read(cloc)) == 0 for e in leaving if it.edge_out.get(e) is not None)
-        keep_ok = all(it.edge_out[(sw, s)].read(cloc) == cur_counter for s in other if it.edge_out.get((sw, s)) is not None)
-        rep.check("C17.R3", "%s|reset" % which, zero_ok and keep_ok, "the counter is 0 after an acknowledgement and keeps the accumulated value otherwise",
-                  "after sending an acknowledgement the counter is not provably reset to 0 on every path (%s) / not kept on the other branch (%s)" % (zero_ok, keep_ok), st["span"])
-        res["reset"] = zero_ok and keep_ok
+    def probe(it, S, toks):
+        W = facts.entry_field(it, prog, ty, [WINDOW])
+        Wv = facts.some_payload(W)
+        set_ty(Wv, "u32")
+        cloc = facts.self_field_loc(it, prog, ty, [COUNTER])
+        C0 = facts.State().read(cloc)
+        Cf = S.read(cloc)
+        bytes_sv = facts.State().read((it.L(bi_param), ()))
+
+        def is_sum(v):
+            b = strip_casts(v)
+            return isinstance(b, tuple) and b[0] == "bin" and b[1] == "Add" and ((b[3] == C0 and mentions_len(b[4])) or (b[4] == C0 and mentions_len(b[3])))
+
+        def mentions_len(x):
+            return contains(x, lambda q: isinstance(q, tuple) and q[0] == "ld" and q[1][1] and q[1][1][-1] == ("len",) and q[1][0] == ("P", bytes_sv))
+        seq = None
+        for t in toks:
+            if t[0] == "call" and len(t) > 3 and t[3]:
+                a0 = t[3][0]
+                while isinstance(a0, tuple) and a0[0] == "upd":
+                    a0 = a0[1]
+                if isinstance(a0, tuple) and a0[0] == "agg" and isinstance(a0[1], str) and a0[1].endswith("RtmpMessage") and a0[2] == ack_vi:
+                    seq = a0[3][0]
+        some, none = facts.is_some(S, W), facts.is_none(S, W)
+        if seq is not None:
+            return ("ack", some, is_sum(seq), bool(S.prove_le(Wv, seq, 0)), const_val(Cf) == 0, stable(seq), stable(Cf))
+        return ("no-ack", some, none, is_sum(Cf) if some else Cf == C0, bool(S.prove_le(Cf, Wv, -1)) if some else True, stable(Cf))
+    ex = grammar.Extractor(env, hb.key, "r")
+    ex.all_local_calls = True
+    ex.track_stores = True
+    ex.raw_args = True
+    ex.inline = True
+    ex.inline_depth = 3
+    units = grammar.named_units(prog)
+    ex.inline_pred = lambda cb, t: cb.pretty.split("::")[-1] not in units
+    ex.probe3 = probe
+    ex.stop_at = lambda fr, t: (callee_name(t) or "").endswith("get_next_message") or (prog.bodies.get(callee_path(t)) is not None and prog.bodies[callee_path(t)].pretty.endswith("get_next_message"))
+    ex.run()
+    if ex.truncated:
+        rep.cannot_analyse("C17.R1", "%s|paths" % which, "too many paths before the message loop of %s::handle_input" % ty, hb.span)
+        return None
+    acks = [p for p in ex.paths if p[-1] == ("end", "cut") and p[-2][1][0] == "ack"]
+    plain = [p for p in ex.paths if p[-1] == ("end", "cut") and p[-2][1][0] == "no-ack"]
+    res = {"which": which}
+    if not acks:
+        rep.bad("C17.R1", "%s|ack-site" % which, "no path of %s::handle_input reaches the message loop after building an Acknowledgement" % ty, hb.span)
+        return None
+    # ---- R2 the reported number is the counter after adding this call's byte count
+    ok2 = all(p[-2][1][2] for p in acks)
+    rep.check("C17.R2", "%s|reported-value" % which, ok2, "the acknowledgement reports the counter after adding this call's byte count (%s)" % acks[0][-2][1][5],
+              "the acknowledgement reports %s, which is not (bytes received since the last acknowledgement + the size of this call)" % sorted({p[-2][1][5] for p in acks}), hb.span)
+    res["reported"] = ok2
+    # ---- R1 trigger: ack iff window known and counter' >= window
+    ok_ack = all(p[-2][1][1] and p[-2][1][3] for p in acks)
+    ok_no = all(p[-2][1][4] for p in plain) and any(p[-2][1][1] for p in plain)
+    rep.check("C17.R1", "%s|trigger" % which, ok_ack and ok_no,
+              "an acknowledgement is sent exactly when counter >= window (and not when counter < window)",
+              "the acknowledgement trigger is not 'counter >= peer window': on the sending paths counter >= window is %s, on the other paths counter < window is %s "
+              "(with '>' a call that makes the count land exactly on the window sends nothing)" % ("proved" if ok_ack else "NOT proved", "proved" if ok_no else "NOT proved"), hb.span)
+    res["trigger"] = ok_ack and ok_no
+    # ---- R3 reset on the ack paths, the sum kept on the others (no window: untouched)
+    zero_ok = all(p[-2][1][4] for p in acks)
+    keep_ok = all(p[-2][1][3] for p in plain)
+    rep.check("C17.R3", "%s|reset" % which, zero_ok and keep_ok, "the counter is 0 after an acknowledgement and keeps the accumulated value otherwise",
+              "after sending an acknowledgement the counter is not provably reset to 0 on every path (%s: %s) / not kept on the other paths (%s: %s)" % (
+                  zero_ok, sorted({p[-2][1][6] for p in acks}), keep_ok, sorted({p[-2][1][5] for p in plain})), hb.span)
+    res["reset"] = zero_ok and keep_ok
     # ---- R6 accumulation overflow (known finding D10)
-    obs = it.walk()
-    for o in obs:
-        if COUNTER in o.what and o.kind.startswith("overflow"):
-            key = "%s|%s" % (hb.pretty, o.what)
-            if o.proved:
-                rep.ok("C17.R6", key, "accumulation cannot overflow: " + o.detail, o.span)
-            else:
-                rep.bad("C17.R6", key, "the accumulation can overflow: " + o.detail, o.span)
+    n6 = 0
+    for key in [hb.key] + sorted(ex.entered):
+        b = prog.bodies[key]
+        I.CUR_BODY[0] = b
+        for o in ctx.interp(key).walk():
+            if COUNTER in o.what and o.kind.startswith("overflow"):
+                n6 += 1
+                k6 = "%s-session|counter-accumulation" % which
+                if o.proved:
+                    rep.ok("C17.R6", k6, "accumulation cannot overflow: " + o.detail, o.span)
+                else:
+                    rep.bad("C17.R6", k6, "the accumulation can overflow: " + o.detail, o.span)
+    res["followed"] = {hb.key} | set(ex.entered)
     return res
 
 
@@ -189,8 +170,17 @@ def run(env, rep):
                                         break
                                     it.transfer_stmt(S, s2)
                             ww.append((b.pretty, ok, b.key))
-        rep.check("C17.R4", "%s|counter-writers" % which, set(cw) == {ty + "::handle_input"}, "only handle_input writes the counter (%d stores)" % len(cw),
-                  "%s is written in %s; only handle_input may change it (a second writer loses bytes that are never acknowledged)" % (COUNTER, sorted(set(cw))))
+        allowed_w = {prog.bodies[k].pretty for k in (r[which] or {}).get("followed", ())} | {ty + "::handle_input"}
+        # a helper of handle_input must not be callable from anywhere else
+        stray = []
+        for k in (r[which] or {}).get("followed", ()):
+            if prog.bodies[k].pretty in set(cw) and prog.bodies[k].pretty != ty + "::handle_input":
+                for ck in prog.callers.get(k, ()):
+                    if ck not in (r[which] or {}).get("followed", ()):
+                        stray.append("%s (called from %s)" % (prog.bodies[k].pretty, prog.bodies[ck].pretty))
+        rep.check("C17.R4", "%s|counter-writers" % which, bool(cw) and set(cw) <= allowed_w and not stray, "only handle_input (and helpers it alone calls before the message loop) writes the counter (%d stores)" % len(cw),
+                  "%s is written in %s%s; only the accounting at the start of handle_input may change it (a second writer loses bytes that are never acknowledged)" % (
+                      COUNTER, sorted(set(cw) - allowed_w) or sorted(set(cw)), "; " + "; ".join(stray) if stray else ""))
         okw = len(ww) >= 1 and all(ok for _, ok, _ in ww)
         # and those functions are called only with the size of a WindowAcknowledgement message
         prov = True
@@ -209,7 +199,7 @@ def run(env, rep):
                   "%s is written by %s (value is Some(parameter): %s; argument is the WindowAcknowledgement size: %s)" % (WINDOW, [w[0] for w in ww], [w[1] for w in ww], prov))
     # ---- R5 sibling agreement
     if r["server"] and r["client"]:
-        a = {k: v for k, v in r["server"].items() if k != "which"}
-        b = {k: v for k, v in r["client"].items() if k != "which"}
+        a = {k: v for k, v in r["server"].items() if k not in ("which", "followed")}
+        b = {k: v for k, v in r["client"].items() if k not in ("which", "followed")}
         rep.check("C17.R5", "siblings-agree", a == b, "server and client sessions have the same acknowledgement summary %s" % a,
                   "the two sessions disagree: server %s, client %s" % (a, b))
